@@ -816,7 +816,7 @@ func (c *Conn) readLoop() {
 
 		ReleaseFrameHeader(fr)
 
-		if stop {
+		if stop || c.drained() {
 			break
 		}
 	}
@@ -864,11 +864,49 @@ func (c *Conn) dispatch(fr *FrameHeader) bool {
 		c.finish(r, fr.Stream(), err)
 	}
 
-	if err != nil && errors.Is(err, FlowControlError) {
-		return true
+	return err != nil && errors.Is(err, FlowControlError)
+}
+
+// drained reports whether the server has sent GOAWAY and every request it
+// promised to process has been answered, which is when the connection has
+// nothing left to wait for.
+func (c *Conn) drained() bool {
+	if c.state != connStateClosed {
+		return false
 	}
 
-	return c.state == connStateClosed && fr.Stream() == c.closeRef
+	c.reqLck.Lock()
+	defer c.reqLck.Unlock()
+
+	for id := range c.reqQueued {
+		if id <= c.closeRef {
+			return false
+		}
+	}
+
+	return true
+}
+
+// failAbove resolves the requests on streams the server's GOAWAY disclaimed.
+// The server did not process them, so the error is one the caller may retry.
+func (c *Conn) failAbove(last uint32) {
+	c.reqLck.Lock()
+
+	var ids []uint32
+
+	for id := range c.reqQueued {
+		if id > last {
+			ids = append(ids, id)
+		}
+	}
+
+	c.reqLck.Unlock()
+
+	for _, id := range ids {
+		if r, ok := c.loadReq(id); ok {
+			c.finish(r, id, ErrConnectionClosed)
+		}
+	}
 }
 
 func (c *Conn) writeRequest(ctx *Ctx) error {
@@ -1375,6 +1413,12 @@ loop:
 				// wait for the streams to complete
 				c.closeRef = ga.stream
 				c.state = connStateClosed
+
+				// The server has said it will not process anything above
+				// last-stream-id (RFC 7540 6.8). Those requests can go to
+				// another connection, and nothing more will arrive for them
+				// here.
+				c.failAbove(ga.stream)
 			}
 
 			break loop
